@@ -174,10 +174,8 @@ class Run:
                     self.discharged -= 1
                     self.problems.append(Problem("audit", n, "depends on axioms outside the allowed set: %s" % sorted(extra)))
         self.cov["axioms_used"] = sorted(axioms_used)
-        # forbidden tokens anywhere in the Lean sources (comments stripped)
-        for p in sorted(LEAN.rglob("*.lean")):
-            if ".lake" in p.parts:
-                continue
+        # forbidden tokens in every Lean source this property's theorems and driver depend on (comments stripped)
+        for p in self.lean_closure(modules + ["Drivers." + self.pid]):
             text = re.sub(r"/-.*?-/", "", p.read_text(), flags=re.S)
             for i, line in enumerate(text.splitlines(), 1):
                 line = line.split("--")[0]
@@ -185,6 +183,23 @@ class Run:
                     ok = False
                     self.problems.append(Problem("forbidden", str(p.relative_to(LEAN)), "line %d: %s" % (i, line.strip())))
         return ok
+
+    def lean_closure(self, modules):
+        """source files of the given modules and everything under lean/ they import, transitively"""
+        seen, todo = {}, list(modules)
+        while todo:
+            m = todo.pop()
+            if m in seen:
+                continue
+            f = LEAN / (m.replace(".", "/") + ".lean")
+            if not f.exists():
+                continue
+            seen[m] = f
+            for line in f.read_text().splitlines():
+                mm = re.match(r"^\s*(?:public\s+)?import\s+(\S+)", line)
+                if mm:
+                    todo.append(mm.group(1))
+        return sorted(seen.values())
 
     def leanchecker(self, modules):
         rc, txt = sh(["lake", "env", "leanchecker"] + modules, cwd=str(LEAN), timeout=3000)
